@@ -11,7 +11,7 @@ use std::collections::{HashMap, HashSet};
 use std::fs::read_to_string;
 use std::time::{Duration, Instant};
 
-use anyhow::{Context as _, Error, Result};
+use anyhow::{anyhow, Context as _, Error, Result};
 use camino::{Utf8Path, Utf8PathBuf};
 use semver::Version;
 use serde::{Deserialize, Deserializer, Serialize};
@@ -321,17 +321,22 @@ fn process_removes(strings: &mut Vec<Dependency<String>>) {
     strings.retain(|x| !(x.get_name().starts_with('-') || removals.contains(&x.get_name()[..])));
 }
 
-pub fn dependency_from_string(dep_name: &String) -> Dependency<String> {
-    match dep_name.as_bytes()[0] {
-        b'?' => Dependency::Soft(dep_name[1..].to_string()),
-        _ => Dependency::Hard(dep_name.clone()),
+pub fn dependency_from_string(dep_name: &String) -> Result<Dependency<String>> {
+    match dep_name.as_bytes().first() {
+        None => Err(anyhow!("empty dependency name")),
+        Some(b'?') => Ok(Dependency::Soft(dep_name[1..].to_string())),
+        Some(_) => Ok(Dependency::Hard(dep_name.clone())),
     }
 }
 
-pub fn dependency_from_string_if(dep_name: &String, other: &str) -> Dependency<String> {
-    match dep_name.as_bytes()[0] {
-        b'?' => Dependency::IfThenSoft(other.to_string(), dep_name[1..].to_string()),
-        _ => Dependency::IfThenHard(other.to_string(), dep_name.clone()),
+pub fn dependency_from_string_if(dep_name: &String, other: &str) -> Result<Dependency<String>> {
+    match dep_name.as_bytes().first() {
+        None => Err(anyhow!("empty dependency name")),
+        Some(b'?') => Ok(Dependency::IfThenSoft(
+            other.to_string(),
+            dep_name[1..].to_string(),
+        )),
+        Some(_) => Ok(Dependency::IfThenHard(other.to_string(), dep_name.clone())),
     }
 }
 
@@ -575,7 +580,9 @@ pub fn load(
         if let Some(selects) = &context.selects {
             for dep_name in selects {
                 // println!("- {}", dep_name);
-                module.selects.push(dependency_from_string(dep_name));
+                module.selects.push(dependency_from_string(dep_name).with_context(|| {
+                    format!("{:?}: context \"{}\"", &filename, context_name)
+                })?);
             }
         }
 
@@ -669,6 +676,7 @@ pub fn load(
         );
 
         m.help.clone_from(&module.help);
+        let ctx = || format!("{:?}: module \"{}\"", filename, m.name);
 
         // convert module dependencies
         // "selects" means "module will be part of the build"
@@ -685,12 +693,13 @@ pub fn load(
             for dep_spec in selects {
                 match dep_spec {
                     StringOrMapVecString::String(dep_name) => {
-                        m.selects.push(dependency_from_string(dep_name));
+                        m.selects.push(dependency_from_string(dep_name).with_context(ctx)?);
                     }
                     StringOrMapVecString::Map(dep_map) => {
                         for (k, v) in dep_map {
                             for dep_name in v {
-                                m.selects.push(dependency_from_string_if(dep_name, k));
+                                m.selects
+                                    .push(dependency_from_string_if(dep_name, k).with_context(ctx)?);
                             }
                         }
                     }
@@ -701,7 +710,7 @@ pub fn load(
             // println!("uses:");
             for dep_name in uses {
                 // println!("- {}", dep_name);
-                m.imports.push(dependency_from_string(dep_name));
+                m.imports.push(dependency_from_string(dep_name).with_context(ctx)?);
             }
         }
         if let Some(depends) = &module.depends {
@@ -710,16 +719,18 @@ pub fn load(
                 match dep_spec {
                     StringOrMapVecString::String(dep_name) => {
                         // println!("- {}", dep_name);
-                        m.selects.push(dependency_from_string(dep_name));
-                        m.imports.push(dependency_from_string(dep_name));
+                        m.selects.push(dependency_from_string(dep_name).with_context(ctx)?);
+                        m.imports.push(dependency_from_string(dep_name).with_context(ctx)?);
                     }
                     StringOrMapVecString::Map(dep_map) => {
                         for (k, v) in dep_map {
                             // println!("- {}:", k);
                             for dep_name in v {
                                 // println!("  - {}", dep_name);
-                                m.selects.push(dependency_from_string_if(dep_name, k));
-                                m.imports.push(dependency_from_string_if(dep_name, k));
+                                m.selects
+                                    .push(dependency_from_string_if(dep_name, k).with_context(ctx)?);
+                                m.imports
+                                    .push(dependency_from_string_if(dep_name, k).with_context(ctx)?);
                             }
                         }
                     }
